@@ -688,8 +688,13 @@ class BaseConnector:
                         await trace.send_connection_create_start()
                 proto = await self._create_connection(req, traces, timeout)
                 if traces:
-                    for trace in traces:
-                        await trace.send_connection_create_end()
+                    try:
+                        for trace in traces:
+                            await trace.send_connection_create_end()
+                    except BaseException:
+                        # Nobody else knows about the new connection yet.
+                        proto.close()
+                        raise
             except BaseException:
                 self._release_acquired(key, placeholder)
                 raise
@@ -791,6 +796,8 @@ class BaseConnector:
                             await trace.send_connection_reuseconn()
                         except BaseException:
                             self._release_acquired(key, proto)
+                            # It is in neither the pool nor the acquired set now.
+                            proto.close()
                             raise
                 return Connection(self, key, proto, self._loop)
 
